@@ -107,6 +107,7 @@ func (op Cir) Simulate(vm *VM, instr string) error {
 	reg_bits := vm.Mach.R
 	regdest := get_id(instr[:reg_bits])
 	regsrc := get_id(instr[reg_bits : reg_bits*2])
+	regsrc = regdest // the instruction has a single register field: the shifted register is the addressed one
 	switch vm.Mach.Rsize {
 	case 8:
 		vm.Registers[regdest] = vm.Registers[regsrc].(uint8) >> 1
